@@ -183,10 +183,144 @@ def run_meta(n, seed, workdir):
             "groups": {"resample_meta": {"n": len(cases), "agree": len(cases) - len(failures)}}, "samples": [cases[0]]}
 
 
-API = {"mesh": run_mesh, "meta": run_meta}
+CHILD_API = r'''
+import json, sys, os
+sys.path.insert(0, os.environ.get("VERIF_REPO", "/repo"))
+import numpy as np
+import fteikpy, fteikpy._solver as S, fteikpy._grid as G
+cases = json.load(open(sys.argv[1]))
+out = []
+class Stop(Exception):
+    pass
+rec = {}
+def wrap_solve(*a):
+    rec["solve"] = a
+    raise Stop()
+def wrap_ray(*a):
+    rec["ray"] = a
+    raise Stop()
+hx = lambda v: [float(x).hex() for x in np.ravel(v)]
+for c in cases:
+    nd = len(c["cells"])
+    v = np.array([float.fromhex(x) for x in c["v"]]).reshape(c["cells"])
+    E = (fteikpy.Eikonal2D if nd == 2 else fteikpy.Eikonal3D)(v, c["d"], c["o"])
+    src = np.array([float.fromhex(x) for x in c["src"]])
+    tt = E.solve(src, return_gradient=True)
+    r = {"axes": [hx(tt.zaxis), hx(tt.xaxis)] + ([hx(tt.yaxis)] if nd == 3 else []),
+         "maxes": [hx(E.zaxis), hx(E.xaxis)] + ([hx(E.yaxis)] if nd == 3 else [])}
+    name = "solve2d" if nd == 2 else "solve3d"
+    orig = getattr(S, name)
+    setattr(S, name, wrap_solve)
+    try:
+        E.solve(src, c["nsweep"], c["grad"])
+    except Stop:
+        pass
+    setattr(S, name, orig)
+    a = rec["solve"]
+    r["solve"] = {"slow": hx(a[0]), "d": hx(a[1:1 + nd]), "src": hx(a[1 + nd]), "nsweep": int(a[2 + nd]), "grad": bool(a[3 + nd])}
+    rname = "ray2d" if nd == 2 else "ray3d"
+    orig = getattr(G, rname)
+    setattr(G, rname, wrap_ray)
+    kw = {}
+    if c["stepsize"] is not None:
+        kw["stepsize"] = c["stepsize"]
+    if c["max_step"] is not None:
+        kw["max_step"] = c["max_step"]
+    try:
+        tt.raytrace(src, honor_grid=c["honor"], **kw)
+    except Stop:
+        pass
+    setattr(G, rname, orig)
+    a = rec["ray"]
+    k0 = nd + nd   # axes + gradient grids
+    r["ray"] = {"axes": [hx(x) for x in a[:nd]], "src": hx(a[k0 + 1]), "stepsize": float(a[k0 + 2]).hex(), "max_step": int(a[k0 + 3]), "honor": bool(a[k0 + 4])}
+    out.append(r)
+json.dump(out, open(sys.argv[2], "w"))
+'''
+
+
+def run_api(n, seed, workdir):
+    """what the API layer hands to the kernels (axes, slowness, relative source, ray step and budget): hand model
+    coq/model/Api.v evaluated on binary64 vs the arguments recorded at the kernel entry points, bit for bit"""
+    import gens
+    rs = np.random.RandomState(seed)
+    cases, terms, layout = [], [], []
+    fl = coqeval.flit
+
+    def flist(xs):
+        return "[" + "; ".join(fl(x) for x in xs) + "]"
+
+    for it in range(n):
+        nd = 2 if rs.rand() < 0.5 else 3
+        cells = [int(rs.randint(1, 6)) for _ in range(nd)]
+        d = [float(rs.choice(gens.SPACINGS)) for _ in range(nd)]
+        o = [float(rs.choice(gens.ORIGINS + [-1e6, 12345.678])) for _ in range(nd)]
+        v = rs.uniform(0.5, 4.0, size=cells)
+        srel = gens.rand_source_rel(rs, tuple(cells), tuple(d), cls="interior")[0]
+        src = [o[a] + srel[a] for a in range(nd)]
+        stepsize = None if rs.rand() < 0.4 else float(rs.choice([0.0, 0.3, 1.7]))
+        max_step = None if rs.rand() < 0.5 else int(rs.choice([0, 3, 50]))
+        honor = bool(rs.rand() < 0.4)
+        c = {"cells": cells, "d": d, "o": o, "v": [float(x).hex() for x in v.ravel()], "src": [float(x).hex() for x in src],
+             "nsweep": int(rs.choice([1, 2, 3])), "grad": bool(rs.rand() < 0.5), "stepsize": stepsize, "max_step": max_step, "honor": honor}
+        cases.append(c)
+        shape_nodes = [k + 1 for k in cells]
+        for a in range(nd):
+            terms.append(f"@axis_nodes float NumF {fl(o[a])} {fl(d[a])} {shape_nodes[a]}%Z")        # traveltime-grid axes
+        for a in range(nd):
+            terms.append(f"@axis_nodes float NumF {fl(o[a])} {fl(d[a])} {cells[a]}%Z")              # model axes
+        terms.append(f"(fun r => fst (fst r) ++ snd (fst r) ++ snd r) (@solve_args float NumF {flist(v.ravel())} {flist(d)} {flist(o)} {flist(src)})")
+        st = "None" if stepsize is None else f"(Some {fl(stepsize)})"
+        ms = "None" if max_step is None else f"(Some {max_step}%Z)"
+        sh = "[" + "; ".join(f"{k}%Z" for k in shape_nodes) + "]"
+        terms.append(f"let s := @ray_stepsize float NumF {flist(d)} {st} {'true' if honor else 'false'} in [s; f_ofZ (@ray_max_step float NumF {sh} {flist(d)} s {ms})]")
+    os.makedirs(workdir, exist_ok=True)
+    cpath, opath, spath = (os.path.join(workdir, x) for x in ("apik_cases.json", "apik_out.json", "apik_child.py"))
+    json.dump(cases, open(cpath, "w"))
+    open(spath, "w").write(CHILD_API)
+    if os.path.exists(opath):
+        os.remove(opath)
+    p = subprocess.run([impl.PY, spath, cpath, opath], env=impl.env_for("jit"), capture_output=True, text=True, timeout=1200)
+    if not os.path.exists(opath):
+        return {"cases": len(cases), "failures": [{"kernel": "api", "why": "implementation run failed: " + p.stderr[-1200:], "meta": {}}],
+                "unstable": [], "hangs": [], "groups": {}}
+    outs = json.load(open(opath))
+    hdr = coqeval.HEADER + "From FT.model Require Import Api.\n"
+    vals = coqeval.run_terms(terms, os.path.join(workdir, "coq"), header=hdr)
+    failures = []
+    k = 0
+    unhex = lambda l: [float.fromhex(x) for x in l]  # noqa: E731
+    for c, o_ in zip(cases, outs):
+        nd = len(c["cells"])
+        ax_tt = vals[k:k + nd]
+        ax_m = vals[k + nd:k + 2 * nd]
+        sv = vals[k + 2 * nd]
+        rv = vals[k + 2 * nd + 1]
+        k += 2 * nd + 2
+        why = None
+        if [unhex(a) for a in o_["axes"]] != ax_tt or [unhex(a) for a in o_["ray"]["axes"]] != ax_tt:
+            why = "traveltime-grid axes differ from origin + spacing * arange(n)"
+        elif [unhex(a) for a in o_["maxes"]] != ax_m:
+            why = "model axes differ from origin + spacing * arange(n)"
+        elif unhex(o_["solve"]["slow"]) + unhex(o_["solve"]["d"]) + unhex(o_["solve"]["src"]) != sv:
+            why = "arguments handed to the solver kernel differ from (1/grid, spacing, source - origin)"
+        elif o_["solve"]["nsweep"] != c["nsweep"] or o_["solve"]["grad"] != c["grad"]:
+            why = "nsweep / return_gradient not passed through"
+        elif [float.fromhex(o_["ray"]["stepsize"]), float(o_["ray"]["max_step"])] != rv:
+            why = f"ray step/budget {float.fromhex(o_['ray']['stepsize'])}, {o_['ray']['max_step']} differ from the model {rv}"
+        elif o_["ray"]["honor"] != c["honor"] or unhex(o_["ray"]["src"]) != unhex(c["src"]):
+            why = "honor_grid / source not passed through to the ray kernel"
+        if why:
+            failures.append({"kernel": "api-layer", "why": why, "meta": {kk: c[kk] for kk in ("cells", "d", "o", "stepsize", "max_step", "honor")}})
+    return {"cases": len(cases), "failures": failures, "unstable": [], "hangs": [],
+            "groups": {"api_args": {"n": len(cases), "agree": len(cases) - len(failures)}},
+            "samples": [{kk: cases[0][kk] for kk in ("cells", "d", "o", "stepsize", "max_step", "honor")}]}
+
+
+API = {"mesh": run_mesh, "meta": run_meta, "api": run_api}
 
 
 if __name__ == "__main__":
-    print(json.dumps(run_meta(10, 3, os.path.join(coqeval.VERIF, "work", "corr_api")), indent=1)[:800])
+    print(json.dumps(run_api(10, 3, os.path.join(coqeval.VERIF, "work", "corr_api")), indent=1)[:1500])
     r = run_mesh(12, 3, os.path.join(coqeval.VERIF, "work", "corr_api"))
     print(json.dumps(r, indent=1)[:1500])
